@@ -104,11 +104,3 @@ impl Pred {
     { unimplemented!() }
 }
 
-// num_cpus::get_physical(): some small positive number (trusted)
-pub mod num_cpus {
-    use super::*;
-    #[verifier::external_body]
-    pub fn get_physical() -> (r: usize)
-        ensures 1 <= r <= 65536
-    { unimplemented!() }
-}
